@@ -17,7 +17,9 @@ MANIFEST = dict(
          "eligible types of the package; src.shoot<cmd>[.<type>].go with src a base name of the package - no part of an output name "
          "holds a path separator; bad names rejected with a diagnostic, among them names of functions, constants, variables, type "
          "parameters, function-local and predeclared types). Three finding regions with "
-         "witness theorems (-type=* dot-files, names that are not package-level types); three former ones were repaired in /repo and are now asserted. Model tied to the code by running the rebuilt binary on generated multi-file packages for all four sub-commands, from the "
+         "witness theorems (-type=* dot-files; names that are not package-level types, accepted by map/enum/rest - for `new`, which "
+         "since /repo 1819261 passes function bodies by, packages with function-local types are in the proved region: model and "
+         "specification are invariant under stripping them); three former ones were repaired in /repo and are now asserted. Model tied to the code by running the rebuilt binary on generated multi-file packages for all four sub-commands, from the "
          "package directory and from other directories with [dir], with sub-command flags in the mix, and by an in-process differential "
          "of the go:generate line recogniser against the real findCmdLine.",
     note="Lean kernel + standard axioms; black-box correspondence on the rebuilt shoot binary (directory diff, top-level declarations of "
